@@ -19,7 +19,8 @@ Record ccase := CC {
   k_missing : N;             (* acknowledged captures of seeds deleted in run 1 that are not among the complete records on disk *)
   k_midfile : N;             (* WARC files with a defect that is not a truncated tail *)
   k_badfinish : N;           (* seeds reported finished (either run) while a node of their tree still awaited fetching or post-processing *)
-  k_sc : bool                (* the job runs with the local seencheck (no --disable-seencheck) *)
+  k_sc : bool;               (* the job runs with the local seencheck (no --disable-seencheck) *)
+  k_fetched1 : list N        (* run 1: seeds for whose own URL a request was sent (arch.fetch of the seed itself) *)
 }.
 
 Definition subset (a b : list N) : bool := forallb (fun x => mem x b) a.
@@ -119,5 +120,11 @@ Definition mon_readable (c : ccase) : bool := k_midfile c =? 0.
    (a frozen reactor rejects the feedback: the seed must then stay unfinished, its row is reset and crawled again) *)
 Definition mon_finish_done (c : ccase) : bool := k_badfinish c =? 0.
 
+(* m6: in the FIRST run of a job (nothing is in the seen-store yet, all rows are in scope and distinct) a row is deleted
+   only for a seed whose own URL was requested in that run - C04_first_run_deleted_was_fetched: deleted => captured or
+   failed for good, and both are outcomes of a request *)
+Definition mon_deleted_requested (c : ccase) : bool := subset (k_deleted1 c) (k_fetched1 c).
+
 Definition mons (l : list ccase) :=
-  mon_idx [mon_no_stranded; mon_captured; mon_refetched; mon_refetched_preprocessed; mon_readable; mon_finish_done] l.
+  mon_idx [mon_no_stranded; mon_captured; mon_refetched; mon_refetched_preprocessed; mon_readable; mon_finish_done;
+           mon_deleted_requested] l.
